@@ -57,6 +57,8 @@ KINDS = {
     "optint": dict(name="o", ann="Optional[int]", conf=[None, 3], bad=["x"], lit="None", lit_spec=None),
     "union": dict(name="u", ann="Union[int, str]", conf=[1, "u"], bad=[1.5, None], lit="'w'", lit_spec="w"),
     "literal": dict(name="lit", ann="Literal['a', 'b']", conf=["a", "b"], bad=["c", 1], lit="'a'", lit_spec="a"),
+    "bounded": dict(name="b", ann="bounded(int, ge=0)", conf=[0, 3], bad=[-1, "x"], lit="2", lit_spec=2),
+    "even": dict(name="e", ann="EVEN", conf=[0, 4], bad=[3, "x"], lit="2", lit_spec=2),
     "nums": dict(name="nums", ann="List[int]", conf=[["list", []], ["list", [0]], ["list", [1, 2]], ["tuple", [3]], ["list", [7, 1]]],
                  bad=[5, ["list", ["x"]], ["list", [1, None]]], mut="[1]", mut_spec=["list", [1]],
                  item="num", items=[0, 1, 2, 7], bad_items=["x", None]),
@@ -101,7 +103,7 @@ KINDS = {
                   nested_item="Keyed"),
     "any": dict(name="anyv", ann="Any", conf=[1, ["list", [1]]], bad=[], lit="None", lit_spec=None, mut="[1]", mut_spec=["list", [1]]),
 }
-SCALAR_KINDS = ["int", "str", "float", "optint", "union", "literal"]
+SCALAR_KINDS = ["int", "str", "float", "optint", "union", "literal", "bounded", "even"]
 COLLECTION_KINDS = ["nums", "words", "scores", "tags", "kids", "pairs", "units", "parts", "links", "marks"]
 SEQ_KINDS = ["nums", "words", "kids", "units", "links"]
 MAP_KINDS = ["scores", "pairs", "parts"]
@@ -151,7 +153,13 @@ import dataclasses
 from dataclasses import field
 from typing import Any, Dict, List, Optional, Set, Union, Literal
 from spec_classes import spec_class, Attr, spec_property, MISSING, Alias
-from spec_classes.types import KeyedList, KeyedSet
+from spec_classes.types import KeyedList, KeyedSet, bounded, validated
+
+def _is_even(v):
+    CB.hit('validator')
+    return isinstance(v, int) and not isinstance(v, bool) and v % 2 == 0
+
+EVEN = validated(_is_even, name="even")
 
 @spec_class
 class Leaf:
@@ -271,13 +279,13 @@ def class_source(rec):
 
 
 REDEFAULT_SRC = {
-    "int": "42", "str": "'r'", "float": "4.5", "optint": "9", "union": "'r'", "literal": "'b'",
+    "int": "42", "str": "'r'", "float": "4.5", "bounded": "42", "even": "42", "optint": "9", "union": "'r'", "literal": "'b'",
     "nums": "[4, 2]", "words": "['r']", "scores": "{'r': 4}", "tags": "{4}", "leaf": "Leaf(x=42)",
     "kids": "[Leaf(x=42)]", "pairs": "{'r': Leaf(x=42)}", "units": "[Keyed('r')]", "parts": "{'r': Keyed('r')}",
     "links": "KeyedList[Keyed, str]([Keyed('r')])", "marks": "KeyedSet[Keyed, str]([Keyed('r')])", "any": "[4]",
 }
 REDEFAULT_SPEC = {
-    "int": 42, "str": "r", "float": 4.5, "optint": 9, "union": "r", "literal": "b",
+    "int": 42, "str": "r", "float": 4.5, "bounded": 42, "even": 42, "optint": 9, "union": "r", "literal": "b",
     "nums": ["list", [4, 2]], "words": ["list", ["r"]], "scores": ["dict", [["r", 4]]], "tags": ["set", [4]],
     "leaf": ["Leaf", {"x": 42}], "kids": ["list", [["Leaf", {"x": 42}]]], "pairs": ["dict", [["r", ["Leaf", {"x": 42}]]]],
     "units": ["list", [["Keyed", {"key": "r"}]]], "parts": ["dict", [["r", ["Keyed", {"key": "r"}]]]],
@@ -305,6 +313,8 @@ PREPARERS = {
     "optint": _prep_scalar(3, 4, -1, "bad"),
     "union": _prep_scalar("u", "U", -1, 1.5),
     "literal": _prep_scalar("zz", "b", "yy", "c"),
+    "bounded": _prep_scalar(7, 8, 3, -1),
+    "even": _prep_scalar(4, 6, 0, 1),
     "nums": lambda v: [8] if v == [7] else v,
     "words": lambda v: ["A"] if v == ["a"] else v,
     "scores": lambda v: {"a": 8} if v == {"a": 7} else v,
